@@ -51,8 +51,11 @@ type Exec struct {
 	assumeBeh func(st *State, fc *FuncContract, b *Behavior, in ssa.Instruction, hyp *Term)
 	onCall    func(st *State, rec *CallRecord)
 	onAcquire func(st *State, guarded *Obj)
+	onRelease func(st *State, mu *Obj)
+	onAcquireState func(st *State, guarded *Obj)
 	isCallee  bool
 	rtMode    bool
+	phiProv   map[*ssa.Phi]string
 	pkgForTags *ssa.Package
 	trackWrites bool
 }
@@ -316,6 +319,10 @@ func (x *Exec) symValue(st *State, t types.Type, name, prov string) Value {
 		return VBox{Inner: VOpaque{Why: "symbolic interface " + name, T: FreshInt(name)}, Type: nil, IsNil: FreshBool(name + ".isnil")}
 	case *types.Signature:
 		return VFunc{IsNil: FreshBool(name + ".isnil"), TagOf: nil}
+	case *types.Map:
+		m := newObj("map", t, name, prov)
+		st.heap[m] = &Content{MV: FreshInt(name + ".state")}
+		return VMap{m}
 	case *types.Struct:
 		if hasCodecMethods(t) {
 			o := newObj("dyn", t, name, prov)
@@ -571,6 +578,17 @@ func (x *Exec) execFrom(st *State, b *ssa.BasicBlock, pred *ssa.BasicBlock) {
 			x.bindPhis(st, b, pred)
 			st.lenv = x.loopEnv(st, li)
 			x.checkInvariants(st, li, "preserved")
+			for _, in := range b.Instrs {
+				phi, ok := in.(*ssa.Phi)
+				if !ok {
+					break
+				}
+				if want, ok := x.phiProv[phi]; ok {
+					if sl, ok := st.env[phi].(VSlice); ok && sl.Arr != nil && sl.Arr.Prov != want {
+						x.obligeProps(st, "frame", fmt.Sprintf("loop%d/provenance(%s)", li.ordinal, phi.Comment), False, "a loop-carried slice keeps its provenance ("+want+"), got "+sl.Arr.Prov, []string{"C16"})
+					}
+				}
+			}
 			return
 		}
 		x.bindPhis(st, b, pred)
@@ -834,7 +852,19 @@ func (x *Exec) havocLoop(st *State, li *loopInfo) {
 		if name == "" {
 			name = phi.Name()
 		}
+		entryProv := ""
+		if ev, ok := st.env[phi].(VSlice); ok && ev.Arr != nil {
+			entryProv = ev.Arr.Prov
+		}
 		st.env[phi] = x.symValue(st, phi.Type(), name+"@loop", "loop")
+		if sl, ok := st.env[phi].(VSlice); ok && entryProv != "" {
+			// provenance is loop-invariant: checked again on the back edge
+			sl.Arr.Prov = entryProv
+			if x.phiProv == nil {
+				x.phiProv = map[*ssa.Phi]string{}
+			}
+			x.phiProv[phi] = entryProv
+		}
 		if sl, ok := st.env[phi].(VSlice); ok {
 			sl.IsNil = False
 			sl.Cap = FreshInt(name + ".cap@loop")
@@ -1027,7 +1057,10 @@ func (x *Exec) step(st *State, in ssa.Instruction) {
 		st.env[in] = x.doMakeSlice(st, in)
 	case *ssa.MakeMap:
 		o := newObj("map", in.Type(), in.Name(), "fresh")
-		st.heap[o] = &Content{MapID: freshName("map")}
+		m0 := FreshInt("emptymap")
+		kq := Var("k!e", SInt)
+		st.assume(Forall([]*Term{kq}, Not(mdom(m0, kq)), mdom(m0, kq)))
+		st.heap[o] = &Content{MapID: freshName("map"), MV: m0}
 		st.env[in] = VMap{o}
 		st.alloc = Add(st.alloc, IntC(48))
 	case *ssa.MakeClosure:
@@ -1073,6 +1106,7 @@ func (x *Exec) doAlloc(st *State, in *ssa.Alloc) Value {
 	et := x.resolve(in.Type().(*types.Pointer).Elem())
 	if in.Heap {
 		st.alloc = Add(st.alloc, IntC(typeSize(et)))
+		st.allocC += typeSize(et)
 	}
 	if hasCodecMethods(et) {
 		o := newObj("dyn", et, in.Comment, "fresh")
@@ -1145,6 +1179,15 @@ func (x *Exec) load(st *State, addr Value, in ssa.Instruction, t types.Type) Val
 		v := x.symValue(st, f.Type(), a.Obj.Name+"."+f.Name(), a.Obj.Prov)
 		c = st.mut(a.Obj)
 		c.Fields[a.Idx] = v
+		if m, ok := v.(VMap); ok && m.Obj != nil {
+			if mu := x.mutexOf(st, a.Obj); mu != nil {
+				m.Obj.Guard = mu
+				m.Obj.Name = a.Obj.Name + "." + f.Name()
+				if h := st.get(mu).Held; (h == "R" || h == "W") && st.acqState == nil {
+					st.acqState = st.get(m.Obj).MV // first look at the guarded state inside the critical section
+				}
+			}
+		}
 		return v
 	case VElemPtr:
 		c := st.get(a.Arr)
@@ -1172,6 +1215,14 @@ func (x *Exec) store(st *State, addr Value, v Value, in ssa.Instruction) {
 		}
 		panic("unsupported:store-to-whole-" + a.Obj.Kind)
 	case VFieldPtr:
+		if mu := x.mutexOf(st, a.Obj); mu != nil {
+			// fields that share a struct with a mutex are guarded by it
+			held := st.get(mu).Held
+			x.obligeProps(st, "lock", fmt.Sprintf("lock/field-write-under-W@b%d", blockIdx(in)), BoolC(held == "W"), "a field guarded by the mutex is reassigned only with the write lock held", []string{"C19", "C20"})
+			if m, ok := v.(VMap); ok && m.Obj != nil {
+				m.Obj.Guard = mu
+			}
+		}
 		st.mut(a.Obj).Fields[a.Idx] = v
 		if st.written == nil {
 			st.written = map[string]bool{}
@@ -1188,6 +1239,22 @@ func (x *Exec) store(st *State, addr Value, v Value, in ssa.Instruction) {
 	default:
 		panic(fmt.Sprintf("unsupported:store-to-%T", addr))
 	}
+}
+
+// mutexOf returns the mutex object living in the same struct, if the struct has one.
+func (x *Exec) mutexOf(st *State, o *Obj) *Obj {
+	stt, ok := o.Type.Underlying().(*types.Struct)
+	if !ok {
+		return nil
+	}
+	for i := 0; i < stt.NumFields(); i++ {
+		if n := namedOf(stt.Field(i).Type()); n != nil && n.Obj().Pkg() != nil && n.Obj().Pkg().Path() == "sync" && (n.Obj().Name() == "RWMutex" || n.Obj().Name() == "Mutex") {
+			if p, ok := x.fieldPtr(st, o, i).(VPtr); ok {
+				return p.Obj
+			}
+		}
+	}
+	return nil
 }
 
 func (x *Exec) doUnOp(st *State, in *ssa.UnOp) Value {
@@ -1400,8 +1467,8 @@ func (x *Exec) doFieldAddr(st *State, in *ssa.FieldAddr) Value {
 		}
 		panic("unsupported:nested-field")
 	case VGlobal:
-		// field of a package-level struct variable (e.g. checksumServiceContext is a pointer, handled by load)
-		panic("unsupported:field-of-global-struct")
+		x.V.noteGlobal(x.inst, p.G.Pkg.Pkg.Path()+"."+p.G.Name(), "write")
+		panic("unsupported:field-of-global-struct " + p.G.Name())
 	}
 	panic(fmt.Sprintf("unsupported:fieldaddr on %T", base))
 }
@@ -1454,6 +1521,10 @@ func (x *Exec) doIndexAddr(st *State, in *ssa.IndexAddr) Value {
 			x.oblige(st, "safe", fmt.Sprintf("index-in-bounds@b%d", in.Block().Index), And(Le(IntC(0), idx), Lt(idx, n)), "array index within length")
 			return VElemPtr{Arr: b.Obj, Idx: idx}
 		}
+	}
+	if g, ok := base.(VGlobal); ok {
+		x.V.noteGlobal(x.inst, g.G.Pkg.Pkg.Path()+"."+g.G.Name(), "write")
+		panic("unsupported:element-of-package-level-array " + g.G.Name())
 	}
 	panic(fmt.Sprintf("unsupported:indexaddr on %T", base))
 }
@@ -1602,6 +1673,12 @@ func (x *Exec) assertType(st *State, v Value, at types.Type) (*Term, Value) {
 			if sv, ok := b.Inner.(VService); ok {
 				return x.serviceImplements(sv, at), VBox{Inner: sv, Type: nil, IsNil: b.IsNil}
 			}
+			if op, ok := b.Inner.(VOpaque); ok && op.T != nil {
+				if it, ok := at.Underlying().(*types.Interface); ok && it.NumMethods() == 1 && it.Method(0).Name() == "Algorithm" {
+					// an arbitrary value: whether it has an Algorithm() method is a property of the value
+					return And(Not(orFalse(b.IsNil)), App("implements_alg", SBool, op.T)), b
+				}
+			}
 			return FreshBool("assert?"), nil
 		}
 		if it, ok := at.Underlying().(*types.Interface); ok {
@@ -1645,6 +1722,11 @@ func (x *Exec) doMakeSlice(st *State, in *ssa.MakeSlice) Value {
 	st.assume(And(Le(IntC(0), n), Le(n, c)))
 	sz := typeSize(x.resolve(et))
 	st.alloc = Add(st.alloc, Mul(IntC(sz), c))
+	if c.IsConst() && c.Val.IsInt64() {
+		st.allocC += sz * c.Val.Int64()
+	} else {
+		st.allocUnknown = true
+	}
 	zero := x.box(st, x.zeroValue(et, st))
 	arr := x.newArray(st, et, Rep(zero, n), in.Name(), "fresh")
 	return VSlice{Arr: arr, Lo: IntC(0), Hi: n, Cap: c, IsNil: False, Elem: et}
